@@ -22,8 +22,35 @@ MAX_REPORTED = 5   # rejections confirmed and reported per run (the rest is only
 # --------------------------------------------------------------------------------------------
 # generic: histories through the library, traces validated against Library.tla
 # --------------------------------------------------------------------------------------------
+def measure_traces(shards):
+    """Counts, from the recorded traces themselves, what was exercised."""
+    calls = faulted = throws = reopens = 0
+    distinct = set()
+    fault_sites = set()
+    for sh in shards:
+        schema = sh["w"].schema
+        for r in vlib.load_trace(sh["trace"]):
+            e = r.get("e")
+            if e == "reopen":
+                reopens += 1
+            if e != "call":
+                continue
+            calls += 1
+            if r.get("out") == "throw":
+                throws += 1
+            f = r.get("fault")
+            sig = (schema, r.get("op"), r.get("c"), r.get("p"), r.get("n"), r.get("t"), r.get("after"), r.get("out"))
+            if f and f.get("fired"):
+                faulted += 1
+                fault_sites.add((schema, r.get("op"), f.get("k"), r.get("ns")))
+            else:
+                distinct.add(sig)
+    return {"calls": calls, "throws": throws, "faulted_attempts": faulted, "reopens": reopens,
+            "distinct_calls": len(distinct), "distinct_fault_sites": len(fault_sites)}
+
+
 def history_check(prop, tier, seed, build_workloads, module="TraceLibrary", cfg=None, flavour="plain",
-                  assumptions=(), rule="", watchdog=10, extra_cov=None):
+                  assumptions=(), rule="", watchdog=10, extra_cov=None, level=None):
     t0 = time.time()
     wd = vlib.workdir("%s_%s" % (prop, tier))
     binary = vbuild.build_bin("libdriver", flavour, extra_src=["shim.cpp"])
@@ -82,7 +109,18 @@ def history_check(prop, tier, seed, build_workloads, module="TraceLibrary", cfg=
     for w in workloads[:3]:
         if w.scripts:
             samples.append({"schema": w.schema, "mode": w.mode, "script": w.scripts[min(len(w.scripts) - 1, 7)]})
-    cov = {"states": states, "transitions": trans,
+    m = measure_traces(shards)
+    level = level or LEVEL_MC
+    if level == "fault_enumeration":
+        evaluations, nontrivial = m["faulted_attempts"], m["distinct_fault_sites"]
+        nt_rule = ("evaluations = call attempts in which an injected statement failure fired; distinct_nontrivial = distinct "
+                   "(schema, operation, position k of the failing statement, statements issued so far) sites; ")
+    else:
+        evaluations, nontrivial = m["calls"], m["distinct_calls"]
+        nt_rule = ("evaluations = public mutating calls executed and validated; distinct_nontrivial = distinct (schema, operation, "
+                   "argument ids/names, outcome) tuples among them; ")
+    cov = {"evaluations": evaluations, "distinct_nontrivial": nontrivial, "measured": m,
+           "states": states, "transitions": trans,
            "traces_validated_against_impl": summary["accepted"],
            "executions": summary["executions"], "trace_records": summary["records"],
            "trace_states_checked_by_tlc": summary["tlc_states"],
@@ -90,11 +128,11 @@ def history_check(prop, tier, seed, build_workloads, module="TraceLibrary", cfg=
            "model_instances": mc_stats, "samples": samples,
            "checker_cmd": "tlc MCForest.tla (generation + model properties); tlc %s.tla (trace validation, POSTCONDITION Accepted)" % module,
            "drive_s": summary["drive_s"], "validate_s": summary["validate_s"],
-           "rule": rule, "known_findings_seen": sorted(kf_seen),
+           "rule": nt_rule + rule, "known_findings_seen": sorted(kf_seen),
            "exhaustive": True}
     if extra_cov:
         cov.update(extra_cov)
-    vlib.write_evidence(prop, tier, seed, LEVEL_MC, cov, time.time() - t0, len(violations), assumptions=assumptions)
+    vlib.write_evidence(prop, tier, seed, level, cov, time.time() - t0, len(violations), assumptions=assumptions)
     for i, p in enumerate(violations):
         path = vlib.replay_file(prop, i + 1, p)
         log("violation: %s | %s" % (p.get("reason"), libcheck.describe(p.get("offending_record"))))
@@ -119,43 +157,61 @@ def check_C07(tier, seed):
     """All crate queries describe one well-formed forest."""
     def build(wd, mc_stats):
         ws = []
-        if tier == "quick":
-            big = {"v1": (4, 4), "v2": (4, 5)}
-            small = {"v1": (3, 4), "v2": (3, 4)}
-            full = ["1.6.0", "1.18.0o", "2.21.2"]
-            rest = [s for s in vlib.REPR if s not in full] + pick_extra([s for s in vlib.ALL if s not in vlib.REPR], seed, 2)
-        else:
-            big = {"v1": (4, 5), "v2": (5, 5)}
-            small = big
-            full = vlib.ALL
-            rest = []
         cache = {}
 
-        def scripts_for(fam, bounds):
-            key = (fam, bounds)
+        def scripts_for(fam, bounds, opnames):
+            key = (fam, bounds, opnames)
             if key not in cache:
-                st, sc = vlib.mc_forest(wd, fam, bounds[0], bounds[1])
+                st, sc = vlib.mc_forest(wd, fam, bounds[0], bounds[1], opnames=opnames)
                 mc_stats.append(st)
                 cache[key] = (st, sc)
             return cache[key]
 
-        for s in full:
+        N4 = ("a", "b", "", "x;y")
+        if tier == "quick":
+            # (A) names incl. invalid ones and duplicates, shallow; (B) one valid name, deep (structure)
+            full = ["1.6.0", "1.18.0o", "2.21.2"]
+            extra = pick_extra([s for s in vlib.ALL if s not in vlib.REPR], seed, 2)
+            plan = {}
+            for s in vlib.REPR + extra:
+                fam = vlib.family(s)
+                if fam == "v1":
+                    plan[s] = [((4, 4) if s in full else (3, 4), N4), ((4, 6) if s in full else (4, 5), ("a",))]
+                else:
+                    plan[s] = [((4, 5) if s in full else (3, 4), N4), ((4, 6) if s in full else (4, 5), ("a", "b"))]
+        else:
+            plan = {}
+            for s in vlib.ALL:
+                fam = vlib.family(s)
+                if fam == "v1":
+                    plan[s] = [((4, 5), N4), ((5, 6), ("a",))]
+                else:
+                    plan[s] = [((4, 5), N4), ((5, 6), ("a", "b"))]
+        for s, items in plan.items():
+            for bounds, opn in items:
+                st, sc = scripts_for(vlib.family(s), bounds, opn)
+                ws.append(Workload(s, sc, list(N4), origin=st["instance"]))
+        # (R) random long histories of the specification (tlc -simulate), larger forests
+        nr, depth = (30, 30) if tier == "quick" else (150, 50)
+        rcache = {}
+        for s in plan:
             fam = vlib.family(s)
-            st, sc = scripts_for(fam, big[fam])
-            ws.append(Workload(s, sc, libcheck.NAMES4, origin=st["instance"]))
-        for s in rest:
-            fam = vlib.family(s)
-            st, sc = scripts_for(fam, small[fam])
-            ws.append(Workload(s, sc, libcheck.NAMES4, origin=st["instance"]))
+            if fam not in rcache:
+                rcache[fam] = vlib.sim_forest(wd, fam, 7, depth, seed, num=200, limit=2000, opnames=("a", "b", "c", "", "x;y"))
+                mc_stats.append(rcache[fam][0])
+            st, sc = rcache[fam]
+            r = random.Random(seed * 7919 + vlib.ALL.index(s))
+            ws.append(Workload(s, r.sample(sc, min(nr, len(sc))), ["a", "b", "c", "", "x;y"], tag="r", origin=st["instance"]))
         return ws
 
     return history_check(
         "C07", tier, seed, build,
-        rule="every transition of the bounded Library graph (crate operations, names {a,b,'',x;y}) is replayed "
-             "through the real library with the shortest call sequence that reaches it; each call's outcome and the "
-             "complete observation (crates, root_crates, per crate parent/children/descendants/name/validity/"
-             "sub_crate_by_name, crate_by_id, crates_by_name, root_crate_by_name, stale handles) must be explained by "
-             "the Library action of the same name; all Library invariants are evaluated in every trace state",
+        rule="every transition of the bounded Library graphs (crate operations; (A) names {a,b,'',x;y} incl. invalid and "
+             "duplicate names, (B) fewer names but more crates / longer histories) is replayed through the real library "
+             "with the shortest call sequence that reaches it; each call's outcome and the complete observation (crates, "
+             "root_crates, per crate parent/children/descendants/name/validity/sub_crate_by_name, crate_by_id, "
+             "crates_by_name, root_crate_by_name, stale handles) must be explained by the Library action of the same name; "
+             "all Library invariants are evaluated in every trace state",
         assumptions=["names are opaque tokens from the declared vocabulary", "ids are compared as logged by the driver",
                      "sibling order is only constrained for the 2.x family"])
 
@@ -213,6 +269,32 @@ def check_C08(tier, seed):
         for s in rest:
             st, sc = scripts_for(vlib.family(s), small["mc"], small["mt"], small["mo"], "diverge")
             ws.append(Workload(s, sc, ["a", "d"], origin=st["instance"]))
+        # membership-only histories (2 crates x 3 live tracks), deeper, chained
+        depth = 5 if tier == "quick" else 7
+        for s in (vlib.REPR if tier == "quick" else vlib.ALL):
+            key = ("mem", vlib.family(s))
+            if key not in cache:
+                st, sc = vlib.mc_forest(wd, vlib.family(s), 3, 13 + depth, max_tracks=6, with_tracks=True, crate_ops="none",
+                                        pre="rich", track_ops="mem", opnames=("a",))
+                mc_stats.append(st)
+                cache[key] = (st, libcheck.chain_mem_scripts(sc, 13))
+            st, sc = cache[key]
+            ws.append(Workload(s, sc, ["c", "d"], origin=st["instance"]))
+        # (R) random long membership histories (tlc -simulate), incl. track / crate creation and removal
+        nr, rdepth = (40, 40) if tier == "quick" else (200, 60)
+        rcache = {}
+        for s in (vlib.REPR if tier == "quick" else vlib.ALL):
+            fam = vlib.family(s)
+            if fam not in rcache:
+                a = vlib.sim_forest(wd, fam, 3, rdepth, seed, num=200, limit=2000, max_tracks=6, with_tracks=True,
+                                    crate_ops="none", pre="rich", track_ops="mem", opnames=("a",))
+                b = vlib.sim_forest(wd, fam, 6, rdepth, seed + 1, num=200, limit=2000, max_tracks=12, with_tracks=True,
+                                    crate_ops="basic", pre="rich", track_ops="all", opnames=("a", "b"))
+                rcache[fam] = (a, b)
+                mc_stats.extend([a[0], b[0]])
+            r = random.Random(seed * 104729 + vlib.ALL.index(s))
+            for st, sc in rcache[fam]:
+                ws.append(Workload(s, r.sample(sc, min(nr, len(sc))), ["a", "b", "c", "d"], tag="r", origin=st["instance"]))
         # the same operations from a fresh library (ids coincide) as a second instance
         for s in (full if tier != "quick" else ["1.18.0o", "2.21.2"]):
             st, sc = scripts_for(vlib.family(s), 2, 2, 5, "none")
@@ -243,20 +325,40 @@ def check_C09(tier, seed):
                 else:
                     ws.append(Workload(s, sc2, libcheck.NAMES4, origin=st2["instance"]))
             st3, sc3 = vlib.mc_forest(wd, "v2", 3, 15, max_tracks=7, with_tracks=True, crate_ops="basic", opnames=("a",), pre="diverge")
-            mc_stats.append(st3)
+            st4, sc4 = vlib.mc_forest(wd, "v2", 3, 13 + 5, max_tracks=6, with_tracks=True, crate_ops="none", pre="rich", track_ops="mem", opnames=("a",))
+            sc4 = libcheck.chain_mem_scripts(sc4, 13)
+            mc_stats.extend([st3, st4])
             for s in ("2.18.0", "2.20.1", "2.20.3", "2.21.2"):
                 ws.append(Workload(s, sc3, ["a", "d"], origin=st3["instance"]))
+            for s in vlib.V2:
+                ws.append(Workload(s, sc4, ["c", "d"], origin=st4["instance"]))
         else:
             st, sc = vlib.mc_forest(wd, "v2", 5, 5)
             st3, sc3 = vlib.mc_forest(wd, "v2", 3, 16, max_tracks=7, with_tracks=True, crate_ops="basic", opnames=("a",), pre="diverge")
-            mc_stats.extend([st, st3])
+            st4, sc4 = vlib.mc_forest(wd, "v2", 3, 13 + 7, max_tracks=6, with_tracks=True, crate_ops="none", pre="rich", track_ops="mem", opnames=("a",))
+            sc4 = libcheck.chain_mem_scripts(sc4, 13)
+            mc_stats.extend([st, st3, st4])
             for s in vlib.V2:
                 ws.append(Workload(s, sc, libcheck.NAMES4, origin=st["instance"]))
                 ws.append(Workload(s, sc3, ["a", "d"], origin=st3["instance"]))
+                ws.append(Workload(s, sc4, ["c", "d"], origin=st4["instance"]))
+        return ws
+
+    def build_with_random(wd, mc_stats):
+        ws = build(wd, mc_stats)
+        nr, rdepth = (40, 40) if tier == "quick" else (200, 60)
+        a = vlib.sim_forest(wd, "v2", 3, rdepth, seed, num=200, limit=2000, max_tracks=6, with_tracks=True,
+                            crate_ops="none", pre="rich", track_ops="mem", opnames=("a",))
+        b = vlib.sim_forest(wd, "v2", 7, rdepth, seed + 1, num=200, limit=2000, opnames=("a", "b", "c"))
+        mc_stats.extend([a[0], b[0]])
+        for s in vlib.V2:
+            r = random.Random(seed * 15485863 + vlib.ALL.index(s))
+            for st, sc in (a, b):
+                ws.append(Workload(s, r.sample(sc, min(nr, len(sc))), ["a", "b", "c", "d"], tag="r", origin=st["instance"]))
         return ws
 
     return history_check(
-        "C09", tier, seed, build,
+        "C09", tier, seed, build_with_random,
         rule="2.x only: every transition of the bounded crate graph (create[_after] at first/middle/last position, "
              "set_parent, set_name, remove) and of the membership graph (add/remove/clear with 3 entries) is replayed; "
              "root_crates(), children() and crate.tracks() are compared as *sequences* with the abstract sibling / entry "
@@ -393,5 +495,7 @@ def check_C14(tier, seed):
              "statement without executing it; reads, writes, BEGIN and COMMIT alike) until the fault no longer fires; TLC "
              "(action Failed = Reject) requires every faulted attempt to throw a std::exception, the complete observation to "
              "be unchanged and the digest of all tables to be identical; the following calls must conform (library usable)",
+        level="fault_enumeration",
         assumptions=["a failing statement has no effect of its own (SQLite statement atomicity), which is what the shim simulates",
+                     "ROLLBACK, the recovery action itself, is never failed",
                      "track field setters are swept by the C06-level track driver (see known findings)"])
